@@ -7,7 +7,10 @@ import (
 	"os"
 	"os/exec"
 	"path/filepath"
+	"regexp"
+	"sort"
 	"strings"
+	"sync"
 	"time"
 )
 
@@ -91,11 +94,15 @@ const replayTestTmpl = `package %s
 
 import (
 	"fmt"
+	"os"
 	"testing"
 	"time"
 
 	zz "github.com/filecoin-project/go-data-transfer/v2/zzverif"
 )
+
+var verifHarnesses = map[string]func(){
+%s}
 
 func TestVerifReplay(t *testing.T) {
 	done := make(chan string, 1)
@@ -113,7 +120,12 @@ func TestVerifReplay(t *testing.T) {
 			}
 		}()
 		zz.Reset()
-		%s()
+		h := verifHarnesses[os.Getenv("VERIF_HARNESS")]
+		if h == nil {
+			done <- "no such harness"
+			return
+		}
+		h()
 		done <- "completed"
 	}()
 	select {
@@ -125,32 +137,92 @@ func TestVerifReplay(t *testing.T) {
 }
 `
 
-// runNative runs harness h natively with the given replay file; returns the VERIF-RESULT line.
-func runNative(pkgRel, pkgName, harnessName, replayPath string, watchdog int) (string, string, error) {
+var (
+	nativeBins   = map[string]string{} // pkgRel -> test binary
+	nativeBinErr = map[string]string{}
+	nativeMu     sync.Mutex
+	nativeDirs   []string
+)
+
+func cleanupNative() {
+	for _, d := range nativeDirs {
+		os.RemoveAll(d)
+	}
+}
+
+// harnessNamesIn lists the Verif* harness functions defined in the overlay files of a package dir.
+func harnessNamesIn(pkgRel string) []string {
+	dir := filepath.Join(harnessDir, pkgRel)
+	if pkgRel == "." {
+		dir = filepath.Join(harnessDir, "root")
+	}
+	var names []string
+	ents, _ := os.ReadDir(dir)
+	re := regexp.MustCompile(`(?m)^func (VerifC\d\d_\w+)\(\)`)
+	for _, e := range ents {
+		if e.IsDir() || !strings.HasSuffix(e.Name(), ".go") {
+			continue
+		}
+		b, _ := os.ReadFile(filepath.Join(dir, e.Name()))
+		for _, m := range re.FindAllStringSubmatch(string(b), -1) {
+			names = append(names, m[1])
+		}
+	}
+	sort.Strings(names)
+	return names
+}
+
+// nativeBinary builds (once per package per run) the replay test binary.
+func nativeBinary(pkgRel, pkgName string) (string, error) {
+	nativeMu.Lock()
+	defer nativeMu.Unlock()
+	if b, ok := nativeBins[pkgRel]; ok {
+		return b, nil
+	}
+	if e, ok := nativeBinErr[pkgRel]; ok {
+		return "", fmt.Errorf("%s", e)
+	}
 	dir, err := os.MkdirTemp("/var/tmp", "verif-replay-")
 	if err != nil {
-		return "", "", err
+		return "", err
 	}
-	defer os.RemoveAll(dir)
+	nativeDirs = append(nativeDirs, dir)
+	var tab strings.Builder
+	for _, n := range harnessNamesIn(pkgRel) {
+		fmt.Fprintf(&tab, "\t%q: %s,\n", n, n)
+	}
 	testFile := filepath.Join(repoDir, pkgRel, "zz_verif_replay_test.go")
-	extra := map[string][]byte{testFile: []byte(fmt.Sprintf(replayTestTmpl, pkgName, harnessName, watchdog))}
+	extra := map[string][]byte{testFile: []byte(fmt.Sprintf(replayTestTmpl, pkgName, tab.String(), 6))}
 	ovPath, err := writeNativeOverlay(dir, extra)
 	if err != nil {
-		return "", "", err
+		nativeBinErr[pkgRel] = err.Error()
+		return "", err
 	}
 	bin := filepath.Join(dir, "replay.test")
 	build := exec.Command("go", "test", "-c", "-vet=off", "-overlay", ovPath, "-o", bin, "./"+pkgRel)
 	build.Dir = repoDir
 	build.Env = append(os.Environ(), "GOFLAGS=-mod=readonly", "GOPROXY=off")
 	if bo, err := build.CombinedOutput(); err != nil {
-		return "", string(bo), fmt.Errorf("native build failed: %v", err)
+		msg := fmt.Sprintf("native build failed: %v: %s", err, string(bo))
+		nativeBinErr[pkgRel] = msg
+		return "", fmt.Errorf("%s", msg)
+	}
+	nativeBins[pkgRel] = bin
+	return bin, nil
+}
+
+// runNative runs harness h natively with the given replay file; returns the VERIF-RESULT line.
+func runNative(pkgRel, pkgName, harnessName, replayPath string, watchdog int) (string, string, error) {
+	bin, err := nativeBinary(pkgRel, pkgName)
+	if err != nil {
+		return "", "", err
 	}
 	cmd := exec.Command(bin, "-test.run", "^TestVerifReplay$", "-test.timeout", "120s", "-test.v")
 	cmd.Dir = filepath.Join(repoDir, pkgRel)
 	if _, err := os.Stat(cmd.Dir); err != nil {
 		cmd.Dir = repoDir
 	}
-	cmd.Env = append(os.Environ(), "VERIF_REPLAY="+replayPath)
+	cmd.Env = append(os.Environ(), "VERIF_REPLAY="+replayPath, "VERIF_HARNESS="+harnessName)
 	var out bytes.Buffer
 	cmd.Stdout = &out
 	cmd.Stderr = &out
